@@ -10,4 +10,5 @@ def check(run, replay=None):
                 "expansion model and vs the signature; L2: compiled corpus, every method of every part encoded with generated "
                 "values (to_json_string), decoded back (from_json) by every part and the contract-level type; non-trivial = "
                 "distinct (program, method, values) or distinct document")
-    return msgprops.check(run, "C01", "Props/C01", THEOREMS, {"c01": True, "decode": True}, replay)
+    return msgprops.check(run, "C01", "Props/C01", THEOREMS, {"c01": True, "decode": True}, replay,
+                          translated=("Props/C01T", ["c01_translated_one_published_name_per_variant"]))
